@@ -1076,7 +1076,7 @@ where
             remaining += mem::size_of::<PacketIdType>();
         }
         remaining += payload.len();
-        let remaining_length = VariableByteInteger::from_u32(remaining as u32).unwrap();
+        let remaining_length = VariableByteInteger::from_len(remaining)?;
 
         Ok(GenericPublish {
             fixed_header,
